@@ -100,6 +100,11 @@ def make_registry():
     pdmodel.install(R)
     from . import permmodel
     permmodel.install(R)
+    permmodel.install_sklearn_utils(R)
+    permmodel.install_isclose(R)
+    permmodel.install_set_of_array(R)
+    from . import sparsemodel
+    sparsemodel.install(R, models)
     return R
 
 
